@@ -217,7 +217,7 @@ def mkFn (stdlib : String → Option (List V → Except NativeError V)) (d : FnD
 def fold : Str → Str := Unicode.lowerStr
 
 /-- `E nv (name value)* nf (fn desc)*` → StaticEnv, built by the same add_variable / add_function sequence -/
-def parseEnv (stdlib : String → Option (List V → Except NativeError V)) : P (StaticEnv Float)
+def parseEnvWith (fold : Str → Str) (stdlib : String → Option (List V → Except NativeError V)) : P (StaticEnv Float)
   | "E" :: nv :: r => do
     let pv : P (Str × V) := fun r => match r with
       | n :: r => (parseVal r).map fun (v, r) => ((unhex n, v), r)
@@ -231,5 +231,8 @@ def parseEnv (stdlib : String → Option (List V → Except NativeError V)) : P 
       pure (env, r)
     | [] => none
   | _ => none
+
+/-- the environment of the `StaticEnvironment` streams: keys folded with `str::to_lowercase` -/
+def parseEnv (stdlib : String → Option (List V → Except NativeError V)) : P (StaticEnv Float) := parseEnvWith fold stdlib
 
 end Codec
